@@ -15,6 +15,9 @@ static ENTROPY_CALLS: AtomicU64 = AtomicU64::new(0);
 #[no_mangle]
 pub unsafe extern "C" fn getrandom(buf: *mut u8, len: usize, _flags: u32) -> isize {
     let call = ENTROPY_CALLS.fetch_add(1, Ordering::SeqCst);
+    if std::env::var_os("LSIM_TRACE_ENTROPY").is_some() {
+        eprintln!("[lsim] getrandom call #{call} len {len}\n{}", std::backtrace::Backtrace::force_capture());
+    }
     let mut x: u64 = ENTROPY_SEED.load(Ordering::SeqCst) ^ call.wrapping_mul(0xD1B54A32D192ED03);
     for i in 0..len {
         x = x.wrapping_add(0x9E3779B97F4A7C15);
